@@ -25,3 +25,50 @@ fn b64_inverse() {
         None => assert!(!(c.is_ascii_alphanumeric() || c == '.' || c == '_')),
     }
 }
+
+fn same(a: &str, b: &str) -> bool {
+    let (x, y) = (a.as_bytes(), b.as_bytes());
+    if x.len() != y.len() {
+        return false;
+    }
+    let mut i = 0;
+    while i < x.len() {
+        if x[i] != y[i] {
+            return false;
+        }
+        i += 1;
+    }
+    true
+}
+
+fn roundtrip(name: &str) {
+    let e = encode(name, false);
+    // the encoder never emits a packable ASCII character
+    for c in e.chars() {
+        assert!(to_b64(c).is_none());
+    }
+    let (d, is_table) = decode(&e);
+    assert!(!is_table);
+    assert!(same(&d, name));
+}
+
+// @harness name=streamname_fixed_a kind=Bk tier=quick props=C11,C02 bound="the names listed in the harness (symbolic Strings are unaffordable in CBMC)" desc="decode(encode(n)) == n and no packable character survives encoding, for names with an odd packable run followed by an unpackable character ('a b'), an even run ('ab c'), and a lone character"
+#[kani::proof]
+#[kani::unwind(12)]
+#[kani::stub(alloc::fmt::format, stub_format)]
+fn streamname_fixed_a() {
+    roundtrip("a b");
+    roundtrip("ab c");
+    roundtrip("a");
+}
+
+// @harness name=streamname_fixed_b kind=Bk tier=thorough props=C11,C02 bound="the names listed in the harness" desc="as streamname_fixed_a for 'abc', 'a.b_c', a non-ASCII name, and an unpackable character first"
+#[kani::proof]
+#[kani::unwind(12)]
+#[kani::stub(alloc::fmt::format, stub_format)]
+fn streamname_fixed_b() {
+    roundtrip("abc");
+    roundtrip("a.b_c");
+    roundtrip("\u{e9}a");
+    roundtrip(" ab");
+}
